@@ -135,6 +135,9 @@ func (e *Engine) builtin(s *State, f *Frame, name string, args []Value, site ssa
 	case "@swap":
 		// engine-native element swap used by the sort.Slice model; args: i, j (bound slice in site-less call)
 		e.errf("@swap must be called through FuncV bindings")
+	case "recover":
+		// a panic ends the path as a violation in this engine, so deferred recover() always sees nil
+		return &IfaceV{}
 	case "ssa:wrapnilchk":
 		return args[0]
 	case "print", "println":
